@@ -179,10 +179,14 @@ class Route(Generic[Interface]):
         match = self.re_pattern.fullmatch(path)
         if match is None:
             return False, {}
-        return True, {
-            name: self.path_convertors[name].to_python(value)
-            for name, value in match.groupdict().items()
-        }
+        try:
+            return True, {
+                name: self.path_convertors[name].to_python(value)
+                for name, value in match.groupdict().items()
+            }
+        except ValueError:
+            # e.g. '2021-13-45' looks like a date but denotes none: not a match
+            return False, {}
 
 
 @mypyc_attr(allow_interpreted_subclasses=True)
